@@ -6,8 +6,8 @@
    are refuted with witnesses; the theorems exclude exactly those, visibly in their statements. *)
 From Coq Require Import ZArith QArith List Bool Floats.
 From ADV Require Import Base.Fl C01.Model C02.Model C11.Model C03.Model C03.ModelM.
-From ADV Require Import C09.ModelS C09.ModelB C09.ModelV C09.ModelM C09.ModelMD C09.ModelVR C09.ModelI C09.Spec.
-From ADV Require C09.ProofsS C09.ProofsB C09.ProofsJ C09.ProofsV C09.ProofsRefuted C09.ProofsRefutedB C09.CorrB C09.ProofsM C09.ProofsMD C09.ProofsVR C09.ProofsI.
+From ADV Require Import C09.ModelS C09.ModelB C09.ModelV C09.ModelM C09.ModelMD C09.ModelVR C09.ModelI C09.ModelVA C09.ModelMA C09.Spec.
+From ADV Require C09.ProofsS C09.ProofsB C09.ProofsJ C09.ProofsV C09.ProofsRefuted C09.ProofsRefutedB C09.CorrB C09.ProofsM C09.ProofsMD C09.ProofsVR C09.ProofsI C09.ProofsVA C09.ProofsMA.
 Import ListNotations.
 
 (* ------------------------------------------------------------------ magic scalars *)
@@ -88,7 +88,8 @@ Theorem JOINT3_ITERATOR__steps_like_JOINT3_ITERATOR : forall w t j,
   joint3_next w t (ProofsJ.emb3 j) = ProofsJ.lift3J (joint3C_next w t j).
 Proof. exact ProofsJ.joint3C_next_emb3. Qed.
 
-(* sparse: VADDV VSUBV VMULV VMULS SET, VDIVS with divisor <> 0, VADDS VSUBS VDIVV; dense: all ten pairs.
+(* sparse: VADDV VSUBV VMULV VMULS SET, VADDS VSUBS VDIVV VDIVS (they call the generic member; VDIVS since 5abb77d, every
+   divisor, 0 included); dense: all ten pairs.  Only sparse Equals/EQUALS is excluded (refuted below).
    Same world (abstraction AND coherence state of receiver and operands), same outcome kind and payload. *)
 Theorem vector_pairs_interchangeable : forall y sp p,
   ProofsV.vpair_ok sp p -> vector_interchangeable y sp p.
@@ -99,10 +100,13 @@ Theorem sparse_EQUALS_true_implies_Equals_partial : forall y w a b e2 w',
 Proof. exact ProofsV.sparse_EQUALS_true_implies_Equals. Qed.
 Theorem sparse_EQUALS_refuted : ~ vector_interchangeable TInt true (VPequals 0 1 5).
 Proof. exact ProofsRefuted.sparse_EQUALS_refuted. Qed.
-Theorem sparse_VDIVS_zero_refuted_int : ~ vector_interchangeable TInt true (VPdivS 0 1 0).
-Proof. exact ProofsRefuted.sparse_VDIVS_zero_refuted_int. Qed.
-Theorem sparse_VDIVS_zero_refuted_float : ~ vector_interchangeable TFloat true (VPdivS 0 1 0).
-Proof. exact ProofsRefuted.sparse_VDIVS_zero_refuted_float. Qed.
+(* the round-1 witness of the retired finding F-C09-VDIVS-ZERO (r = a = [], divisor 0): both members agree now *)
+Theorem sparse_VDIVS_zero_witness_regression :
+  fst (snd (step_generic TInt true ProofsRefuted.w_div (VPdivS 0 1 0))) = K_PANIC /\
+  fst (snd (step_concrete TInt true ProofsRefuted.w_div (VPdivS 0 1 0))) = K_PANIC /\
+  C03.Model.rd (fst (step_generic TFloat true ProofsRefuted.w_div (VPdivS 0 1 0))) (RS 0) 0 = NAN /\
+  C03.Model.rd (fst (step_concrete TFloat true ProofsRefuted.w_div (VPdivS 0 1 0))) (RS 0) 0 = NAN.
+Proof. exact ProofsRefuted.sparse_VDIVS_zero_witness_agrees. Qed.
 
 (* ------------------------------------------------------------------ dense matrices *)
 (* MADDM MSUBM MMULM MDIVM MADDS MSUBS MMULS MDIVS EQUALS OUTER: the nested loops of the concrete twins over AT =
@@ -169,6 +173,62 @@ Theorem sparse_real_absent_visit_meta_refuted :
        vs_concrete ProofsRefuted.FlZ ProofsVR.idZ k sch s = vs_generic ProofsRefuted.FlZ ProofsVR.idZ k sch s).
 Proof. exact ProofsVR.sparse_real_absent_visit_meta_refuted. Qed.
 
+(* ------------------------------------------------------------------ the scalar operand passed by reference *)
+(* VaddS/VADDS VsubS/VSUBS VmulS/VMULS VdivS/VDIVS with the scalar a REFERENCE into the world (C09.ModelVA: a scalar of
+   its own, x.At(i) of the receiver, of the other operand, of any other vector; both members written out separately and
+   read the scalar again on every iteration, replayed against both Go members every run): dense vectors — all four
+   pairs, every world, every reference; sparse vectors — VADDS VSUBS VMULS VDIVS, every world, every reference. *)
+Theorem vector_scalar_ref_pairs_interchangeable : forall y sp w p, stepA_concrete y sp w p = stepA_generic y sp w p.
+Proof. exact ProofsVA.scalar_ref_pairs_agree. Qed.
+(* sparse VDIVS with a reference, spelled out (round 6 had it _partial with a side condition on the divisor and a
+   refutation, F-C09-VDIVS-SELFREF: repaired by 5abb77d, VDIVS calls VdivS): every world, every reference *)
+Theorem sparse_VDIVS_ref_interchangeable : forall y w r a s,
+  stepA_concrete y true w {| ap_op := SDiv; ap_r := r; ap_a := a; ap_s := s |} =
+  stepA_generic y true w {| ap_op := SDiv; ap_r := r; ap_a := a; ap_s := s |}.
+Proof. exact (fun y w r a s => ProofsVA.scalar_ref_pairs_agree y true w {| ap_op := SDiv; ap_r := r; ap_a := a; ap_s := s |}). Qed.
+(* the witness of the retired finding: r = [4, 2, _, _], a = [_, _, 2, 4], b = r.AT(0): both members leave [0; NaN; Inf; Inf]
+   (the divisor is overwritten with 0 / 4 = 0), integer element types: both panic *)
+Theorem sparse_VDIVS_selfref_witness_regression :
+  abs_vec (hp (sw (fst (stepA_generic TFloat true ProofsVA.wsp (ProofsVA.p_div_self 0 1))))) (getv (sw (fst (stepA_generic TFloat true ProofsVA.wsp (ProofsVA.p_div_self 0 1)))) 0) = [0; NAN; PINF; PINF]%Z /\
+  abs_vec (hp (sw (fst (stepA_concrete TFloat true ProofsVA.wsp (ProofsVA.p_div_self 0 1))))) (getv (sw (fst (stepA_concrete TFloat true ProofsVA.wsp (ProofsVA.p_div_self 0 1)))) 0) = [0; NAN; PINF; PINF]%Z /\
+  snd (stepA_generic TInt true ProofsVA.wsp (ProofsVA.p_div_self 0 1)) = (K_PANIC, []) /\
+  snd (stepA_concrete TInt true ProofsVA.wsp (ProofsVA.p_div_self 0 1)) = (K_PANIC, []).
+Proof. exact ProofsVA.sparse_VDIVS_selfref_witness_agrees. Qed.
+(* the by-reference models extend the by-value ones of ModelV.v / C03.Model: a scalar of its own is the old pair *)
+Theorem scalar_by_value_is_the_value_pair : forall y sp w o r a c,
+  stepA_concrete y sp w {| ap_op := o; ap_r := r; ap_a := a; ap_s := AVal c |} = step_concrete y sp w (vpair_of o r a c) /\
+  stepA_generic y sp w {| ap_op := o; ap_r := r; ap_a := a; ap_s := AVal c |} = step_generic y sp w (vpair_of o r a c).
+Proof. exact (fun y sp w o r a c => conj (ProofsVA.by_value_concrete y sp w o r a c) (ProofsVA.by_value_generic y sp w o r a c)). Qed.
+(* frame: a reference that is not into the receiver (dense) is as good as its value — only the receiver is written *)
+Theorem dense_scalar_ref_outside_receiver_is_its_value : forall y o w r a k i, k <> r ->
+  DCON y o w r a (SDense k i) = DCON y o w r a (SVal (sread w (SDense k i))).
+Proof. exact ProofsVA.dense_ref_outside_receiver. Qed.
+(* a twin that reads the scalar ONCE before the loop is not interchangeable with the generic member (dense and sparse) *)
+Theorem cached_scalar_twin_refuted :
+  ~ (forall y w p, stepA_cached y false w p = stepA_generic y false w p) /\
+  ~ (forall y w p, stepA_cached y true w p = stepA_generic y true w p).
+Proof. exact (conj ProofsVA.cached_dense_refuted ProofsVA.cached_sparse_refuted). Qed.
+Example scalar_ref_pairs_covered :
+  getd (fst (stepA_concrete TInt false ProofsVA.wd (ProofsVA.p_mul_self 0 1))) 0%nat = [10; 70]%Z /\
+  abs_vec (hp (sw (fst (stepA_concrete TInt true ProofsVA.wsp (ProofsVA.p_div_self 2 3))))) (getv (sw (fst (stepA_concrete TInt true ProofsVA.wsp (ProofsVA.p_div_self 2 3)))) 2) = [2; 3]%Z /\
+  (1%nat <> 0%nat).
+Proof. repeat split; try discriminate; vm_compute; reflexivity. Qed.
+
+(* dense matrices: MADDS MSUBS MMULS MDIVS with the scalar a reference (C09.ModelMA: a cell &values[index(i, j)] of the
+   receiver, of the other operand, of a third matrix, an element of a dense vector, a scalar of its own): the nested
+   loops over AT leave exactly the world of the generic row-major loop, every well-formed world, every reference *)
+Theorem dense_matrix_scalar_ref_pairs_interchangeable : forall y w p,
+  wfdm w -> mstepA_concrete y w p = mstepA_generic y w p.
+Proof. exact ProofsMA.matrix_scalar_ref_pairs_agree. Qed.
+Theorem matrix_scalar_by_value_is_the_value_pair : forall y w o r a c,
+  mstepA_concrete y w {| mp_op := o; mp_r := r; mp_a := a; mp_s := MAVal c |} = mstep_concrete y w (mpair_of o r a c).
+Proof. exact ProofsMA.m_by_value_concrete. Qed.
+Theorem cached_scalar_matrix_twin_refuted : ~ (forall y w p, wfdm w -> mstepA_cached y w p = mstepA_generic y w p).
+Proof. exact ProofsMA.cached_matrix_refuted. Qed.
+Example matrix_scalar_ref_covered :
+  wfdm ProofsMA.wm /\ dvals (fst (mstepA_concrete TInt ProofsMA.wm ProofsMA.pm_mul_self)) 0%nat = [10; 70]%Z.
+Proof. split; [exact ProofsMA.wm_wf | vm_compute; reflexivity]. Qed.
+
 (* ------------------------------------------------------------------ accessors and iterators *)
 (* At/AT, Iterator/ITERATOR, IteratorFrom/ITERATOR_FROM (+ Get/GET per visit, the generic nil guards written out) of
    dense and sparse vectors and matrices, JointIterator/JOINT_ITERATOR of sparse receivers: both members modelled
@@ -187,7 +247,7 @@ Proof. exact ProofsI.dv_iterator_from_is_suffix. Qed.
 
 (* ------------------------------------------------------------------ the hypotheses are satisfiable *)
 Example pairs_covered :
-  ProofsV.vpair_ok true (VPopV Sub 0 0 1) /\ ProofsV.vpair_ok true (VPdivS 0 1 (-2))
+  ProofsV.vpair_ok true (VPopV Sub 0 0 1) /\ ProofsV.vpair_ok true (VPdivS 0 1 0)
   /\ ProofsV.vpair_ok false (VPequals 0 1 3) /\ ProofsB.not_sqrt BAbsP
   /\ bare TInt8 /\ (forall A (C : Car A), wt C TInt8 (VI (-128))) /\ (forall A (C : Car A) x, wt C TFloat64 (VF x)).
 Proof. cbn. repeat split; try discriminate; reflexivity. Qed.
